@@ -42,6 +42,12 @@ RULES = {
              'the loop head skips the advance',
     'C06.e': 'the snapshot selects state != Ok, or everything when reclaiming',
     'C06.f': 'remove: New -> drop from memory, else tombstone(Deleted, old offsets); storage dispatch arms call their own strategy',
+    'C06.m': 'an entry of the shared map is marked clean (state Ok) only by replacing it whole with the copy the snapshot wrote: no '
+             'field-wise `entry.state = Ok` through a mutable reference into Database.map — the value in memory may be newer than the '
+             'one on disk, and marked Ok it is never written again',
+    'C06.n': 'two snapshots of one database never overlap: every call of the storage dispatcher (and through it of a data-file writer, '
+             'which is not re-entrant: it appends and records offsets as if alone) is made while the write guard of the snapshot '
+             'queue Databases.to_snapshot is held — the one lock the declutter thread, the shutdown path and a client all pass',
 }
 
 STATUS = 'nundb::bo::ValueStatus'
@@ -133,6 +139,8 @@ def writer_cells(m):
 def run(ck, m):
     _run(ck, m)
     offsets_rules(ck, m)
+    clean_mark_with_the_written_value(ck, m)
+    writers_serialised(ck, m)
 
 
 def _run(ck, m):
@@ -664,3 +672,82 @@ def offsets_rules(ck, m):
           'buffer comes back as its first bytes followed by NULs (same length), or the start fails on a cut UTF-8 character' % short_reads[:3],
           '%s:%s' % (lb.file, lb.line))
     ck.floor('C06.k', nreads, 4, 'reads in the loader')
+
+
+
+def clean_mark_with_the_written_value(ck, m):
+    """C06.m — see RULES"""
+    P = m.prog
+    VM = 'std::collections::HashMap::<std::string::String, nundb::bo::Value>::'
+    MUTS = ('get_mut', 'entry', 'values_mut', 'iter_mut', 'index_mut', 'or_insert', 'or_insert_with', 'and_modify')
+    n, bad = 0, []
+    for b in P.user_bodies():
+        if b.id.startswith(('nundb::client::', 'nundb::command_line::')):
+            continue
+        for bi, bl in enumerate(b.blocks):
+            if bl.get('cleanup'):
+                continue
+            for s in bl['s']:
+                if s['k'] != 'assign' or not s['l'].get('p'):
+                    continue
+                pr = s['l']['p']
+                if not (pr[-1][0] == 'f' and pr[-1][-1] == 'state' and pr[-1][2].endswith('bo::Value')):
+                    continue
+                n += 1
+                rv = s['r']
+                ops = [rv['o']] if rv['k'] in ('use', 'cast') else rv.get('ops', [])
+                variants = set()
+                if rv['k'] == 'agg' and rv.get('variant'):
+                    variants.add(rv['variant'])
+                for o in ops:
+                    variants |= set(core.enum_variants_of(b, o, stop_at_calls=True))
+                if 'Ok' not in variants and variants:
+                    continue
+                base_roots = origins(b, {'m': {'l': s['l']['l']}})
+                from_map = any(r[0] == 'call' and b.term(r[1])['f'].get('dargs', '').startswith(VM) and
+                               callee_decl(b.term(r[1])).split('::')[-1] in MUTS for r in base_roots)
+                if from_map or not variants:
+                    bad.append('%s@%s' % (short(b.id), b.loc(bi)))
+    ck.ob('C06.m', 'Database.map', 'clean-mark-replaces-the-entry', not bad,
+          'no entry of the shared map gets its state set to Ok field-wise (%d field stores to Value.state examined)' % n if not bad else
+          'an entry of the shared map is marked Ok in place at %s: the value it holds at that moment may be newer than the copy the '
+          'snapshot wrote (a client write landed since the dirty keys were collected); flagged Ok it is skipped by every later '
+          'incremental snapshot and a restart returns the older value' % bad, bad[0] if bad else '')
+
+
+
+def writers_serialised(ck, m):
+    """C06.n — see RULES"""
+    from nl import locks
+    P = m.prog
+    L = locks.LockModel(P)
+    try:
+        wb, tm, regions = writer_cells(m)
+    except core.AnchorError as e:
+        ck.undecided('C06.n', 'writer', 'anchor', str(e))
+        return
+    # the dispatcher(s): bodies outside the storage modules that call a data writer directly
+    disp = set()
+    for b in P.user_bodies():
+        if b.id.startswith(('nundb::client::', 'nundb::command_line::', 'nundb::storage::')):
+            continue
+        if any(callee(t) == wb.id for _, t in b.calls()):
+            disp.add(b.id)
+    targets = disp or {wb.id}
+    n, bad = 0, []
+    for b in P.user_bodies():
+        if b.id.startswith(('nundb::client::', 'nundb::command_line::')) or b.id in targets:
+            continue
+        for bi, t in b.calls():
+            if callee(t) not in targets:
+                continue
+            n += 1
+            held = [a for a in L.held_at(b, bi) if 'Databases.to_snapshot' in a.ids and a.mode == 'W']
+            if not held:
+                bad.append('%s@%s' % (short(b.id), b.loc(bi)))
+    ck.ob('C06.n', 'snapshot-queue', 'writers-run-under-the-queue-lock', not bad and n > 0,
+          'every call of the storage dispatcher (%d) is made under the write guard of Databases.to_snapshot' % n if not bad else
+          'the storage dispatcher is called at %s without the write guard of the snapshot queue: the declutter thread, a shutdown and a '
+          'client `snapshot` can then write the same database at once — the writer is not re-entrant, the appends interleave, each '
+          'records offsets as if it were alone, and a restart loads garbage' % bad, bad[0] if bad else '')
+    ck.floor('C06.n', n, 1, 'calls of the storage dispatcher')
